@@ -257,6 +257,12 @@ pub fn run(tier: Tier) -> Outcome {
                     }
                 }
                 cells += 1;
+                // ... and the risk admin's wind-down completion on top (it carries the completed flag only on banks
+                // opened for token-less repayment; it is no way out of the killed state either)
+                let forced = process_tx(&mut s, &Tx::one(ix::force_tokenless_repay_complete(e.w.group, e.w.roles.risk, e.w.banks[0].key), &[e.w.roles.risk])).ok();
+                if forced {
+                    *classes.entry(format!("killed_permanence:{flavour}:force_complete_accepted")).or_insert(0) += 1;
+                }
                 let now = world::bank(&s, &e.w.banks[0].key).config.operational_state;
                 let mut t = s.clone();
                 let dep = act::apply(&e.w, &mut t, &Action::Deposit { u: 0, b: 0, amt: 10, up_to_limit: None });
